@@ -279,6 +279,24 @@ func (f *Frame) unop(x *ssa.UnOp, guard string, st *State) {
 	switch x.Op {
 	case token.MUL: // load
 		pt := x.X.Type().Underlying().(*types.Pointer).Elem()
+		if g, ok := x.X.(*ssa.Global); ok && isErrType(pt) {
+			// error-valued package variables are modelled as distinct non-nil constants (never reassigned)
+			name := g.Name()
+			if g.Pkg != e.P.Pkg {
+				name = g.Pkg.Pkg.Name() + "." + g.Name()
+			}
+			c := "errG_" + sanitize(name)
+			known := false
+			for _, d := range e.P.globalDecls {
+				if strings.Contains(d, "declare-const "+c+" ") {
+					known = true
+				}
+			}
+			if known {
+				f.set(x, Val{T: c})
+				return
+			}
+		}
 		if xv.Loc == nil {
 			f.rtCheck("nil", x, guard, fmt.Sprintf("(not (= %s 0))", xv.T), describe(x))
 		}
@@ -393,7 +411,7 @@ func (f *Frame) makeSlice(x *ssa.MakeSlice, guard string, st *State) {
 	e := f.e
 	ln := f.val(x.Len).T
 	cp := f.val(x.Cap).T
-	f.rtCheck("makeslice", x, guard, fmt.Sprintf("(and (<= 0 %s) (<= %s %s) (< %s 281474976710656))", ln, ln, cp, cp), describe(x))
+	f.rtCheck("makeslice", x, guard, fmt.Sprintf("(and (<= 0 %s) (<= %s %s) (<= %s (* 4 alim)))", ln, ln, cp, cp), describe(x))
 	r := e.newRef(st, "mk")
 	elem := x.Type().Underlying().(*types.Slice).Elem()
 	hn, hs := e.elemHeap(elem)
